@@ -100,22 +100,26 @@ func (c *procContext) Informers() controllercontext.Informers { return c.p.W.Inf
 // the segment, and the call the pass is now parked on (nil: pass ended).
 type Seg struct {
 	Done  *Call
-	Dels  []string
+	Dels  []string // graceful Pod deletes that took effect
+	FDels []string // forced (grace period 0) Pod deletes that took effect
 	Force bool
 	Next  *Call
 }
 
 func (p *Proc) collect(n0 int, pend *Call) Seg {
 	var s Seg
+	p.W.API.FlushPodDeletes(p.Name)
 	for _, c := range p.W.API.Calls[n0:] {
 		if c.Actor != p.Name {
 			continue
 		}
 		if c.Verb == "delete" && c.Resource == "pods" {
 			if c.Err == "" {
-				s.Dels = append(s.Dels, c.Key)
 				if c.Force {
 					s.Force = true
+					s.FDels = append(s.FDels, c.Key)
+				} else {
+					s.Dels = append(s.Dels, c.Key)
 				}
 			}
 			continue
